@@ -246,6 +246,7 @@ def tick_election(ctx, role, readonly):
         ctx.prove(log_same(olog, so.log()), 'C03+C04:election.log-unchanged')
     for n, b in field_unchanged(old, so, ['raftCommitIndex', 'raftLastApplied', 'otherNodes']):
         ctx.prove(b, 'C03+C04:election.frame.%s' % n)
+    ctx.prove(so.get('commandsLocalCounter') >= old.get('commandsLocalCounter'), 'C02:O2.3c.request-ids-never-reused.counter-monotone')
     so.prove_inv('*:election')
 
 
